@@ -63,6 +63,11 @@ class Script:
         self.do(("EClientLoop", c, req))
         self.do(("EClientSnd", c, srv, 0, True))
 
+    def check(self, cond, detail=None):
+        """an expectation about the shape of the scenario on the unchanged tree (tolerant scripts ignore it)"""
+        if not cond:
+            raise AssertionError("scenario shape: %r" % (detail,))
+
     def case(self, name, what, expect=None):
         c = {"name": name, "what": what, "params": self.params, "events": self.events, "picks": self.picks}
         if expect:
@@ -70,11 +75,11 @@ class Script:
         return c
 
 
-def old_term_entry(h):
+def old_term_entry(h, mk=None, over=None):
     """leader of term 3 holds an entry of term 2 replicated on a quorum: it must NOT be committed by counting replicas
     (raftkvs.tla AdvanceCommitIndex: log[i][maxAgreeIndex].term = currentTerm[i])"""
     p = {"n": 3, "nc": 1, "buf": 10, "fifo": True, "explorefail": True, "crashers": [], "keys": 1, "vals": 2}
-    s = Script(h, p)
+    s = (mk or Script)(h, dict(p, **(over or {})))
     s.elect(1, [2])
     s.client_request(19, ("put", 1, 1), 1)
     s.deliver(1, lambda m: m["mtype"] == "cpq")
@@ -86,18 +91,18 @@ def old_term_entry(h):
     s.drain(1, lambda m: m["mtype"] == "apq" and m["mterm"] == 3)
     s.drain(3, lambda m: m["mtype"] == "apq" and m["mterm"] == 3)
     s.drain(2, lambda m: m["mtype"] == "app" and m["mterm"] == 3)
-    assert s.w.g["matchIndex"][2][1] == 1, s.w.g["matchIndex"]
+    s.check(s.w.g["matchIndex"][2][1] == 1, s.w.g["matchIndex"])
     s.do(("EAdvance", 2))
     s.do(("EApply", 2))
-    assert s.w.g["commitIndex"][2] == 0, s.w.g["commitIndex"]
+    s.check(s.w.g["commitIndex"][2] == 0, s.w.g["commitIndex"])
     return s.case("old_term_entry", "an entry of term 2 replicated on a quorum by the leader of term 3 is not committed by counting replicas")
 
 
-def bag_reorder(h):
+def bag_reorder(h, mk=None, over=None):
     """ONLY for cfg_fifo = false (the spec's bag): an older AppendEntries (heartbeat) delivered after a newer one removes an
     acknowledged, committed entry; the next leader lacks it"""
     p = {"n": 3, "nc": 1, "buf": 10, "fifo": False, "explorefail": True, "crashers": [], "keys": 1, "vals": 2}
-    s = Script(h, p)
+    s = (mk or Script)(h, dict(p, **(over or {})))
     s.elect(1, [2])
     s.append_entries(1, [2])                      # heartbeat prev=0 entries=<<>> stays in flight
     s.client_request(19, ("put", 1, 1), 1)
@@ -112,13 +117,13 @@ def bag_reorder(h):
                   expect={"bag_violation": True})
 
 
-def figure8(h):
+def figure8(h, mk=None, over=None):
     """Raft Figure 8 with three servers: S1 (term 2) and S3 (term 3) each append an unreplicated entry at index 1; S1 is re-elected
     (term 4) and replicates its term-2 entry to S2: it is on a quorum but must NOT be committed by counting replicas. S3 is then elected
     (term 5, its last entry has the higher term), overwrites index 1 on S2 and commits its own entries. If the term-2 entry had been
     committed, StateMachineSafety / LeaderCompleteness fail here."""
     p = {"n": 3, "nc": 2, "buf": 10, "fifo": True, "explorefail": True, "crashers": [], "keys": 2, "vals": 2}
-    s = Script(h, p)
+    s = (mk or Script)(h, dict(p, **(over or {})))
     apq_from = lambda j: (lambda m: m["mtype"] == "apq" and m["msource"] == j)
     s.elect(1, [2])
     s.client_request(19, ("put", 1, 1), 1)
@@ -131,27 +136,27 @@ def figure8(h):
     s.client_request(20, ("put", 1, 2), 3)
     s.deliver(3, lambda m: m["mtype"] == "cpq")                       # e3 @1 at S3 only
     s.deliver(1, lambda m: m["mtype"] == "rvq" and m["msource"] == 3 and m["mterm"] == 3)   # S1 learns term 3, steps down, refuses; keeps e2
-    assert s.w.g["state"][1] == "follower" and len(s.w.g["log"][1]) == 1 and s.w.g["log"][1][0]["term"] == 2
+    s.check(s.w.g["state"][1] == "follower" and len(s.w.g["log"][1]) == 1 and s.w.g["log"][1][0]["term"] == 2)
     # S1 re-elected in term 4 by S2; S3 hears the request, steps down and refuses
     s.timeout(1)
     s.deliver(2, lambda m: m["mtype"] == "rvq" and m["msource"] == 1 and m["mterm"] == 4)
     s.deliver(3, lambda m: m["mtype"] == "rvq" and m["msource"] == 1 and m["mterm"] == 4)
     s.drain(1, lambda m: m["mtype"] == "rvp")
     s.do(("EBecomeLeader", 1, 0))
-    assert s.w.g["state"][1] == "leader" and s.w.g["currentTerm"][1] == 4 and s.w.g["state"][3] == "follower"
+    s.check(s.w.g["state"][1] == "leader" and s.w.g["currentTerm"][1] == 4 and s.w.g["state"][3] == "follower")
     for _ in range(2):                                                  # reject (prev=1), then accept prev=0 entries=<<e2>>
         s.append_entries(1, [2])
         s.drain(2, apq_from(1))
         s.drain(1, lambda m: m["mtype"] == "app")
-    assert s.w.g["matchIndex"][1][2] == 1, s.w.g["matchIndex"]
+    s.check(s.w.g["matchIndex"][1][2] == 1, s.w.g["matchIndex"])
     s.do(("EAdvance", 1)); s.do(("EApply", 1))                          # e2 is on {S1,S2} but has term 2 <> 4: must not be committed
-    assert s.w.g["commitIndex"][1] == 0 and s.w.g["log"][2][0]["term"] == 2
+    s.check(s.w.g["commitIndex"][1] == 0 and s.w.g["log"][2][0]["term"] == 2)
     # S3 (last entry of term 3) is elected in term 5 by S2 and overwrites index 1 there
     s.timeout(3, drop=[1])
     s.deliver(2, lambda m: m["mtype"] == "rvq" and m["msource"] == 3 and m["mterm"] == 5)
     s.drain(3, lambda m: m["mtype"] == "rvp")
     s.do(("EBecomeLeader", 3, 0))
-    assert s.w.g["state"][3] == "leader" and s.w.g["currentTerm"][3] == 5
+    s.check(s.w.g["state"][3] == "leader" and s.w.g["currentTerm"][3] == 5)
     for _ in range(2):
         s.append_entries(3, [2])
         s.drain(2, apq_from(3))
@@ -162,15 +167,15 @@ def figure8(h):
     s.drain(2, apq_from(3))
     s.drain(3, lambda m: m["mtype"] == "app")
     s.do(("EAdvance", 3)); s.do(("EApply", 3)); s.do(("EApply", 3))
-    assert s.w.g["commitIndex"][3] == 2, s.w.g["commitIndex"]
+    s.check(s.w.g["commitIndex"][3] == 2, s.w.g["commitIndex"])
     return s.case("figure8", "Raft Figure 8: an old-term entry on a quorum is not committed by counting replicas; a later leader overwrites it")
 
 
-def deposed_leader(h):
+def deposed_leader(h, mk=None, over=None):
     """a deposed leader holding an unreplicated entry at index 1 rejoins as follower: AppendEntries of the new leader (which has
     committed its own entry at index 1) must replace the conflicting entry before it is acknowledged/applied"""
     p = {"n": 3, "nc": 2, "buf": 10, "fifo": True, "explorefail": True, "crashers": [], "keys": 2, "vals": 2}
-    s = Script(h, p)
+    s = (mk or Script)(h, dict(p, **(over or {})))
     s.elect(1, [2])
     s.client_request(19, ("put", 1, 1), 1)
     s.deliver(1, lambda m: m["mtype"] == "cpq")                       # e2 @1 at S1 only
@@ -182,20 +187,20 @@ def deposed_leader(h):
     s.drain(2, lambda m: m["mtype"] == "apq" and m["msource"] == 3)
     s.drain(3, lambda m: m["mtype"] == "app")
     s.do(("EAdvance", 3)); s.do(("EApply", 3))                          # e3 committed on {S3,S2}
-    assert s.w.g["commitIndex"][3] == 1
+    s.check(s.w.g["commitIndex"][3] == 1)
     s.append_entries(3, [1, 2])                                         # prev = 0, entries = <<e3>>, commit = 1 reaches the deposed leader
     s.drain(1, lambda m: m["mtype"] == "apq" and m["msource"] == 3)
     s.drain(2, lambda m: m["mtype"] == "apq" and m["msource"] == 3)
     s.drain(3, lambda m: m["mtype"] == "app")
-    assert s.w.g["commitIndex"][1] == 1 and s.w.g["log"][1] == s.w.g["log"][3], (s.w.g["commitIndex"], s.w.g["log"])
+    s.check(s.w.g["commitIndex"][1] == 1 and s.w.g["log"][1] == s.w.g["log"][3], (s.w.g["commitIndex"], s.w.g["log"]))
     return s.case("deposed_leader", "a deposed leader's conflicting unreplicated entry is replaced when it rejoins as follower")
 
 
-def split_vote(h):
+def split_vote(h, mk=None, over=None):
     """two candidates of the same term: S1 (candidate, has voted for itself) must refuse S2; S3 grants only the first request.
     If S1 granted, S1 {1,3} and S2 {2,1} would both be leader of term 2."""
     p = {"n": 3, "nc": 1, "buf": 10, "fifo": True, "explorefail": True, "crashers": [], "keys": 1, "vals": 2}
-    s = Script(h, p)
+    s = (mk or Script)(h, dict(p, **(over or {})))
     s.timeout(1)
     s.timeout(2)
     s.deliver(3, lambda m: m["mtype"] == "rvq" and m["msource"] == 1)     # S3 votes for S1
@@ -208,5 +213,5 @@ def split_vote(h):
     s.deliver(2, lambda m: m["mtype"] == "rvq" and m["msource"] == 1)
     s.drain(2, lambda m: m["mtype"] == "rvp")
     s.do(("EBecomeLeader", 2, 1), expect=None)
-    assert s.w.g["state"][1] == "leader" and s.w.g["state"][2] != "leader"
+    s.check(s.w.g["state"][1] == "leader" and s.w.g["state"][2] != "leader")
     return s.case("split_vote", "two candidates of one term: a candidate refuses the other's request (it voted for itself)")
